@@ -240,6 +240,9 @@ impl MemcacheBinaryCodec {
             return Err(Error::new(ErrorKind::Other, "Header body length too large"));
         }
 
+        // number of bytes that have to be left in src once this request is parsed:
+        // a request is taken from exactly the body_length bytes its header announces
+        let rest_len = src.len() - self.header.body_length as usize;
         let result = match FromPrimitive::from_u8(self.header.opcode) {
             Some(binary::Command::Get)
             | Some(binary::Command::GetQuiet)
@@ -300,6 +303,19 @@ impl MemcacheBinaryCodec {
             }
         };
         self.init_parser();
+        if let Ok(Some(_)) = &result {
+            if src.len() != rest_len {
+                error!(
+                    "Request layout does not match header body length, bytes left: {:?}, expected: {:?}",
+                    src.len(),
+                    rest_len
+                );
+                return Err(Error::new(
+                    ErrorKind::InvalidData,
+                    "Request layout does not match body length",
+                ));
+            }
+        }
         result
     }
 
